@@ -281,11 +281,60 @@ def r16_5(ctx):
             ctx.bad("R16.5", fi.module, fi.qual, what, f"copy() lost: {what}", fi.node.lineno)
 
 
+def r16_6(ctx):
+    """The per-message context (SearchContext) is the one place FETCH and SEARCH read a message's size, date, UID and flags
+    from.  Each accessor computes its value from the message *of this context* and memoises it on the context object only - a
+    context lives for one command.  A value kept anywhere that outlives the command (a dict on the mailbox keyed by MH
+    message key, a module-level table) goes stale when the key is re-used after an expunge or the folder is packed."""
+    from .common import pm_of
+
+    p = ctx.p
+    ci = p.cls("SearchContext")
+    table = {
+        "msg_size": ("self._msg_size", ["self._msg_size = get_msg_size(self.msg())"]),
+        "msg": ("self._msg", ["self._msg = self.mailbox.get_msg(self.msg_key)"]),
+        "uid": ("self._uid", ["self._uid_vv, self._uid = self.mailbox.get_uid_from_msg(self.msg_key)"]),
+        "internal_date": ("self._internal_date", ["self._internal_date = internal_date", "self._internal_date = datetime.fromtimestamp(self.path.stat().st_mtime, UTC)"]),
+        "sequences": ("self._sequences", ["self._sequences = self.mailbox.msg_sequences(self.msg_key)"]),
+    }
+    n = 0
+    for m, (slot, shapes) in table.items():
+        fi = ci.methods.get(m)
+        ctx.require(fi is not None, f"SearchContext.{m} vanished", anchor=True)
+        n += 1
+        ctx.analysed(fi)
+        pm = pm_of(p, fi)
+        stores = [s_ for s_ in body_walk(fi.node) if isinstance(s_, ast.Assign)]
+        # every store in the accessor goes to the context's own slots or to locals; nothing is written through self.mailbox
+        foreign = []
+        for s_ in body_walk(fi.node):
+            tgts = []
+            if isinstance(s_, ast.Assign):
+                tgts = s_.targets
+            elif isinstance(s_, ast.AugAssign):
+                tgts = [s_.target]
+            for t in tgts:
+                for x in ([t] if not isinstance(t, ast.Tuple) else t.elts):
+                    if isinstance(x, ast.Subscript) or (isinstance(x, ast.Attribute) and not (isinstance(x.value, ast.Name) and x.value.id == "self" and x.attr.startswith("_"))):
+                        foreign.append(s_)
+        rets = [r for r in body_walk(fi.node) if isinstance(r, ast.Return) and r.value is not None]
+        if foreign:
+            ctx.bad("R16.6", fi.module, fi.qual, norm(foreign[0], 80), f"{m}() stores its value outside the per-command context (`{norm(foreign[0], 60)}`): a value remembered across commands under an MH message key is served for another message once that key is re-used (RFC822.SIZE disagrees with BODY[])", foreign[0].lineno)
+        elif not any(pm.has(sh) for sh in shapes) or not all(norm(r.value) == slot for r in rets):
+            ctx.bad("R16.6", fi.module, fi.qual, f"{slot} = <value of this context's message>", f"{m}() no longer computes its value from this context's own message and returns the memoised slot `{slot}`", fi.node.lineno)
+        else:
+            ctx.ok("R16.6", where(fi), f"{m}(): computed from this context's message, memoised on the context only")
+    ctx.floor("R16.6", n, 5, "SearchContext accessors")
+
+
 def run(ctx):
     ctx.do(r16_1)
     ctx.do(r16_2)
     ctx.do(r16_3)
     ctx.do(r16_4)
     ctx.do(r16_5)
+    ctx.do(r16_6)
+    from . import c08
+    ctx.do(c08.r8_5b)
     from . import c10
     ctx.do(c10.r10_4_units, modules=("mbox", "fetch", "search"))
